@@ -66,9 +66,9 @@ def judge_bytes(data, name, kind):
 # configurations, as bytes from the independent writer.  C01 judges the verdicts; here only the C02 clauses apply
 # (no crash; every conformance error can be explained, located and hinted).
 G_CFGS = [
-    {"prof": "HQ", "ver": 3, "pat": "any", "fields": False},
-    {"prof": "LD", "ver": 3, "pat": "nomix", "fields": True},
-    {"prof": "HQ", "ver": 2, "pat": "althq", "fields": False},
+    {"prof": "HQ", "ver": 3, "pat": "any", "fields": False, "sx": 1},
+    {"prof": "LD", "ver": 3, "pat": "nomix", "fields": True, "sx": 2},
+    {"prof": "HQ", "ver": 2, "pat": "althq", "fields": False, "sx": 2},
 ]
 
 
